@@ -45,6 +45,46 @@ theorem fillRange_eq_mapIdx (day : List Bool) (lo n : Nat) (v : Bool) :
   | none => simp
   | some b => by_cases hc : lo ≤ i ∧ i < lo + n <;> simp [hc]
 
+/-- `set_state` in closed form -/
+theorem setState_some (day : List Bool) (st : String) (s e : TimeArg) (lo hi : Nat)
+    (hv : validStates.contains st = true) (ht : timeRange s e = some (lo, hi)) :
+    setState day st s e =
+      (day.mapIdx (fun i b => if lo ≤ i ∧ i ≤ hi then onStates.contains st else b),
+       if hi < day.length then Outcome.ok else Outcome.indexError) := by
+  have hfun : (fun (i : Nat) (b : Bool) => if lo ≤ i ∧ i < lo + (hi + 1 - lo) then onStates.contains st else b) =
+      (fun i b => if lo ≤ i ∧ i ≤ hi then onStates.contains st else b) := by
+    funext i b
+    by_cases h : lo ≤ i ∧ i ≤ hi
+    · have : lo ≤ i ∧ i < lo + (hi + 1 - lo) := by omega
+      rw [if_pos h, if_pos this]
+    · have : ¬ (lo ≤ i ∧ i < lo + (hi + 1 - lo)) := by omega
+      rw [if_neg h, if_neg this]
+  simp only [setState, hv, ht, if_true, fillRange_eq_mapIdx, hfun]
+
+theorem setState_none (day : List Bool) (st : String) (s e : TimeArg)
+    (h : validStates.contains st = false ∨ timeRange s e = none) :
+    setState day st s e = (day, Outcome.valueError) := by
+  unfold setState
+  cases hv : validStates.contains st with
+  | false => simp
+  | true =>
+    rcases h with h | h
+    · rw [hv] at h; cases h
+    · simp [h]
+
+theorem ite_ok_index_ne (c : Prop) [Decidable c] :
+    (if c then Outcome.ok else Outcome.indexError) ≠ Outcome.valueError := by
+  split <;> simp
+
+/-- a parsed time of day addresses a slot below 48 -/
+theorem timeRange_lt (sh sm eh em lo hi : Nat) (h1 : eh < 24) (h2 : em < 60)
+    (ht : timeRange (.hm sh sm) (.hm eh em) = some (lo, hi)) : hi < 48 := by
+  by_cases h0 : eh = 0 ∧ em = 0
+  · simp [timeRange, stepMin, h0] at ht
+    omega
+  · simp [timeRange, stepMin, h0] at ht
+    omega
+
 /-! ### one byte <-> eight slots -/
 
 theorem splitByte_length (b : Byte) : (splitByte b).length = 8 := by simp [splitByte]
@@ -516,6 +556,64 @@ theorem applyEdits_spec (dev : Device) (idx : Nat) (t : List (List Bool)) (ht : 
         simp only
         rw [dictGet_dictSet_other _ _ _ _ (Ne.symm hi)]
         exact hs
+
+/-! ### the write queue -/
+
+theorem Sys.run_append (s : Sys) (a b : List Ev) :
+    Sys.run s (a ++ b) = ((Sys.run (Sys.run s a).1 b).1, (Sys.run s a).2 ++ (Sys.run (Sys.run s a).1 b).2) := by
+  induction a generalizing s with
+  | nil => simp [Sys.run]
+  | cons ev r ih =>
+    simp only [List.cons_append, Sys.run, ih, List.cons_append]
+
+/-- a harmless event keeps a single queued request for `idx` queued, with the same payload -/
+theorem Sys.step_harmless (s : Sys) (r : Req) (hq : s.queue = [r]) (ev : Ev)
+    (hev : ev.harmlessFor r.idx = true) :
+    ∃ r', (s.step ev).1.queue = [r'] ∧ r'.idx = r.idx ∧ r'.payload (s.step ev).1.dev = r.payload s.dev := by
+  cases ev with
+  | commit i => simp [Ev.harmlessFor] at hev
+  | drain => simp [Ev.harmlessFor] at hev
+  | edit e =>
+    simp only [Ev.harmlessFor, bne_iff_ne, ne_eq] at hev
+    refine ⟨r, by simp [Sys.step, hq], rfl, ?_⟩
+    simp only [Sys.step, Req.payload, Req.week]
+    cases hf : r.frozen with
+    | some w => rfl
+    | none =>
+      simp only
+      cases hl : dictGet s.dev.schedules e.idx with
+      | none => rw [edit_fst_miss s.dev e hl]
+      | some w =>
+        rw [edit_fst_hit s.dev e w hl]
+        simp only
+        rw [dictGet_dictSet_other _ _ _ _ (fun h => hev h.symm)]
+  | receive msg =>
+    simp only [Sys.step]
+    cases hd : decodeResponse msg with
+    | none => exact ⟨r, by simp [hq], rfl, rfl⟩
+    | some es =>
+      cases hr : s.dev.receive msg with
+      | none => exact ⟨r, by simp [hq], rfl, rfl⟩
+      | some dev' =>
+        simp only
+        by_cases hk : knownIndexes es = true
+        · rw [if_pos hk]
+          refine ⟨r.freeze s.dev, by simp [hq], rfl, ?_⟩
+          simp [Req.payload, Req.week, Req.freeze]
+        · rw [if_neg hk]
+          exact ⟨r, by simp [hq], rfl, rfl⟩
+
+theorem Sys.run_harmless (s : Sys) (r : Req) (hq : s.queue = [r]) (mid : List Ev)
+    (hmid : ∀ ev ∈ mid, ev.harmlessFor r.idx = true) :
+    ∃ r', (Sys.run s mid).1.queue = [r'] ∧ r'.idx = r.idx ∧
+      r'.payload (Sys.run s mid).1.dev = r.payload s.dev := by
+  induction mid generalizing s r with
+  | nil => exact ⟨r, hq, rfl, rfl⟩
+  | cons ev rest ih =>
+    obtain ⟨r1, hq1, hi1, hp1⟩ := Sys.step_harmless s r hq ev (hmid ev (by simp))
+    obtain ⟨r2, hq2, hi2, hp2⟩ := ih (s.step ev).1 r1 hq1
+      (fun e he => by rw [hi1]; exact hmid e (by simp [he]))
+    exact ⟨r2, by simpa [Sys.run] using hq2, by rw [hi2, hi1], by simpa [Sys.run, hp1] using hp2⟩
 
 theorem decodeEntries_tables (n : Nat) (data : List Byte) (es : List Entry)
     (h : decodeEntries n data = some es) :
